@@ -120,12 +120,16 @@ func c13program(r *rng.R, tag string, n int, password bool) c13prog {
 	return p
 }
 
+var c13late bool
+
 func c13server(password bool, rec *double.RecHandler) *redis.Server {
 	srv := newServer(rec)
 	if c13soft {
 		srv.AddAuthenticator(softAuthenticator{})
 	}
-	if password {
+	if password && c13late {
+		srv.SetRequirePass(c08pass)
+	} else if password {
 		srv.SetRequirePass(c08pass)
 		srv.AddAuthenticator(auth.NewClearTextPasswordAuthenticatorWith("", c08pass))
 	}
@@ -258,9 +262,13 @@ func c13run(idx int) run.Result {
 	var res run.Result
 	res.Idx = idx
 	r := rng.New(c13.seed, rng.Str("C13"), uint64(idx))
-	mode := r.Intn(4) // 0,1: no password; 2: requirepass; 3: no password + quietly refusing authenticator
-	password := mode == 2
+	// 0,1: no password; 2: requirepass; 3: no password + quietly refusing authenticator; 4: requirepass set
+	// through the configuration only (as CONFIG SET or SetRequirePass on a running server do: the framework
+	// registers the matching authenticator itself when the first AUTH arrives)
+	mode := r.Intn(5)
+	password := mode == 2 || mode == 4
 	c13soft = mode == 3
+	c13late = mode == 4
 	rec := double.NewRec()
 	if idx < c13.nSys {
 		// systematic: two connections in lock-step, all interleavings of two 4-request programs
@@ -382,7 +390,7 @@ func init() {
 	run.Register(&run.Prop{
 		ID: "C13", Level: "exploration",
 		Rule: func(tier string) string {
-			return "case = 2..8 connections served by one server through hook H1 (children are built with the Go race detector), each running its own program of SELECT n (small, negative and huge indices; ill-formed tokens), AUTH (right and wrong; a quarter of the cases require a password, another quarter require none but have an application authenticator that refuses wrong credentials with (false, nil) rather than an error) and single-call data commands whose keys carry the issuing connection's tag. Schedules: (systematic) two connections in lock-step under ALL 70 interleavings of two 4-request programs; (free-running) every connection on its own goroutine with seeded Gosched yields inside the handler double. Monitor: every handler call is attributed to the issuing connection by its key tag and must show conn.Database(), IsAuthrized(), conn.UserName()/Password() (the credentials of the connection's last successful AUTH), a per-connection counter kept in the connection's sync.Map and the connection UUID equal to that connection's own command history, where a SELECT or AUTH counts iff its reply was +OK (programs are sequential per connection, so the expectation is exact under any interleaving); UUIDs of different connections differ. Evidence reports distinct observed interleavings (hash of the global call order)"
+			return "case = 2..8 connections served by one server through hook H1 (children are built with the Go race detector), each running its own program of SELECT n (small, negative and huge indices; ill-formed tokens), AUTH (right and wrong; two fifths of the cases require a password - half of them only through the configuration, the way CONFIG SET requirepass or SetRequirePass on a running server leave it, so that the framework registers the authenticator when the first AUTH arrives -, another fifth require none but have an application authenticator that refuses wrong credentials with (false, nil) rather than an error) and single-call data commands whose keys carry the issuing connection's tag. Schedules: (systematic) two connections in lock-step under ALL 70 interleavings of two 4-request programs; (free-running) every connection on its own goroutine with seeded Gosched yields inside the handler double. Monitor: every handler call is attributed to the issuing connection by its key tag and must show conn.Database(), IsAuthrized(), conn.UserName()/Password() (the credentials of the connection's last successful AUTH), a per-connection counter kept in the connection's sync.Map and the connection UUID equal to that connection's own command history, where a SELECT or AUTH counts iff its reply was +OK (programs are sequential per connection, so the expectation is exact under any interleaving); UUIDs of different connections differ. Evidence reports distinct observed interleavings (hash of the global call order)"
 		},
 		Assumptions: []string{"the per-connection user data is observed through the sync.Map embedded in redis.Conn"},
 		Setup: func(tier string, seed uint64) int {
